@@ -194,7 +194,7 @@ func Run(c *core.Ctx, replay string) (*core.Result, error) {
 			// a table-like struct so that the SQL generators have something to do
 			p.Decls = append(p.Decls, absprog.Decl{K: "struct", Name: "Row", Fields: []absprog.Field{
 				{Name: "Id", Type: absprog.Ref("", "IdItem")}, {Name: "When", Type: absprog.Time()}, {Name: "Day", Type: absprog.Ref("", "MyDate")},
-				{Name: "Lvl", Type: absprog.Ref("sub", "Level")}, {Name: "Null", Type: absprog.Ref("database/sql", "NullInt64")}, {Name: "Data", Type: absprog.Ref("", "Alpha")},
+				{Name: "Lvl", Type: absprog.Ref("sub", "Level")}, {Name: "Null", Type: absprog.Ref("database/sql", "NullInt64")}, {Name: "Dur", Type: absprog.Ref("time", "Duration")}, {Name: "Data", Type: absprog.Ref("", "Alpha")},
 				{Name: "Tags", Type: absprog.Ref("", "IntList")}, {Name: "K", Type: absprog.Ref("", "Kind")}}})
 			items = append(items, Item{ID: k + 1, Files: absprog.Render(p, synth.ModRoot), Source: fmt.Sprintf("p%d/defs.go", k+1), Rounds: rounds})
 		}
